@@ -79,6 +79,8 @@ Definition single_retryable_err (r : reply) (ctx_done closed : bool) : bool :=
   | _ => false
   end.
 
+Definition is_expired (r : reply) : bool := match r with RExpired => true | _ => false end.
+
 Inductive why := WFirst | WRetry | WExpired | WRedirect.
 
 (** one Send event: why it was sent, and what came back *)
@@ -88,6 +90,16 @@ Inductive outcome :=
 | Done (r : reply)
 | OutOfEnv               (* the environment list ended (the call is still going on) *)
 | OutOfFuel.
+
+(** what singleClient.Do / sentinelClient.Do decide after one attempt ([t] is the effective tick) *)
+Inductive decision := DReturn | DResend | DRetry.
+
+Definition single_decision (p : policy) (retryable : bool) (attempts : nat) (t : tick) : decision :=
+  let r := k_reply t in
+  if is_expired r then DResend
+  else if p_retry p && retryable && single_retryable_err r (k_ctx_cls t) (k_closed t)
+          && wait_or_skip (p_delay p attempts r) (k_left t)
+       then DRetry else DReturn.
 
 (** singleClient.Do *)
 Fixpoint single_do (fuel : nat) (p : policy) (retryable : bool) (attempts : nat) (w : why)
@@ -100,16 +112,10 @@ Fixpoint single_do (fuel : nat) (p : policy) (retryable : bool) (attempts : nat)
     | t0 :: env' =>
       let t := effective t0 in
       let here := if k_ctx_call t0 then [] else [mkEv w t] in
-      let r := k_reply t in
-      let continue (w' : why) (a : nat) :=
-          let '(tr, o) := single_do f p retryable a w' env' in (here ++ tr, o) in
-      match r with
-      | RExpired => continue WExpired attempts
-      | _ =>
-        if p_retry p && retryable && single_retryable_err r (k_ctx_cls t) (k_closed t)
-           && wait_or_skip (p_delay p attempts r) (k_left t)
-        then continue WRetry (S attempts)
-        else (here, Done r)
+      match single_decision p retryable attempts t with
+      | DResend => let '(tr, o) := single_do f p retryable attempts WExpired env' in (here ++ tr, o)
+      | DRetry => let '(tr, o) := single_do f p retryable (S attempts) WRetry env' in (here ++ tr, o)
+      | DReturn => (here, Done (k_reply t))
       end
     end
   end.
@@ -129,8 +135,6 @@ Record bcmd := mkCmd {
 Definition is_multi (c : bcmd) : bool := match b_kind c with KMulti => true | _ => false end.
 Definition is_exec (c : bcmd) : bool := match b_kind c with KExec => true | _ => false end.
 Definition all_retryable (cs : list bcmd) : bool := forallb b_retryable cs.
-
-Definition is_expired (r : reply) : bool := match r with RExpired => true | _ => false end.
 
 (** the scan of the expiry recovery: index to re-send from, with the [txIdx] book-keeping
     ([txIdx == 0] means "not in a transaction" — also for a MULTI at index 0) *)
